@@ -42,6 +42,7 @@ REGISTRY = {
         level="exploration",
         units=[
             dict(pkg=DCS, test="TestVerifC03Lock", quick=6000, thorough=200000, shards_quick=8, shards_thorough=16),
+            dict(pkg=APP, test="TestVerifC03Daemon", quick=1600, thorough=40000, shards_quick=16, shards_thorough=16),
         ],
     ),
     "C15": dict(
